@@ -13,7 +13,7 @@ when this function returns Ok, so an Ok for an exchange that did not finish make
 clauses of S3 (removal-joined, done-before-ok, expiry-is-error) are the fallback when a construct is outside the vocabulary."""
 import absint
 from absint import Interp, Order, Cell, Unmodelled, UNIT, mk_bool
-from facts import last_seg
+from facts import last_seg, ty_head
 import actor_abs
 from actor_abs import World, ok, err, upvar_types
 
@@ -49,7 +49,22 @@ class SyncWorld(World):
             f = interp.deref_all(args[-1])
             what = f[1] if f is not None and f[0] == 'closure' else str(f[:2] if f else f)
             self.nspawn += 1
-            self.trace.append(('spawn', self.nspawn, what))
+            tags = []
+
+            def dig(v, d=0):
+                v = interp.deref_all(v)
+                if v is None or d > 5:
+                    return
+                if v[0] == 'vec':
+                    for x in v[1]:
+                        x = interp.deref_all(x.v if isinstance(x, Cell) else x)
+                        if x is not None and x[0] == 'opaque' and str(x[1]).startswith('doc:'):
+                            tags.append(x[1][4:])
+                elif v[0] in ('adt', 'closure', 'tuple'):
+                    for c in (v[3] if v[0] == 'adt' else v[2] if v[0] == 'closure' else v[1]):
+                        dig(c.v, d + 1)
+            dig(f)
+            self.trace.append(('spawn', self.nspawn, what, tuple(sorted(set(tags)))))
             return ('future', 'join', self.nspawn, what)
         if name.startswith(EC) and seg == 'has_expired' and 'Progress' in name:
             v = self.state() == 'expired'
@@ -93,7 +108,7 @@ class SyncWorld(World):
         return World.poll(self, interp, pin, f)
 
 
-def check_supervision(ctx, facts, rule):
+def check_supervision(ctx, facts, rule, only_routing=False):
     from orswot_abs import _fallback
     try:
         ents = [b for b in facts.bodies.values() if b.crate == EC and b.kind == 'coroutine' and b.name.endswith('::begin_keyspace_sync::{closure#0}') and b.cfg is not None]
@@ -102,7 +117,7 @@ def check_supervision(ctx, facts, rule):
         entry = ents[0]
         ups = upvar_types(entry)
         out = []
-        for script, removal_ok, label in SCENARIOS:
+        for script, removal_ok, label in (SCENARIOS[:1] if only_routing else SCENARIOS):
             def run(choices, script=script, removal_ok=removal_ok):
                 world = SyncWorld(script, removal_ok)
                 it = Interp(facts, Order({}), opaque_call=world.call, step_limit=200000)
@@ -111,17 +126,33 @@ def check_supervision(ctx, facts, rule):
                 it.opaque_fields = True
                 it.choices = list(choices)
                 n = max(ups) + 1 if ups else 0
-                def mk(ty):
+                # the two lists are told apart by NAME: a parameter called removed / modified, or a field of that name in a struct parameter
+                fnb = facts.bodies.get(entry.name[:-len('::{closure#0}')])
+                pnames = fnb.local_names() if fnb is not None else {}
+                list_names = [pnames.get(i) for i in range(1, (fnb.argc if fnb is not None else 0) + 1)
+                              if fnb is not None and ('SmallVec<' in fnb.local_ty(i) or 'Vec<' in fnb.local_ty(i)) and 'DocumentMetadata' in fnb.local_ty(i)]
+                seen_lists = []
+
+                def mk(ty, fname=None):
                     if ty.startswith('&'):
                         inner = ty[1:].strip()
                         inner = inner[4:] if inner.startswith('mut ') else inner
                         return ('ref', Cell(mk(inner)))
                     if ty in ('alloc::string::String', 'str'):
                         return ('key', 'ks')
+                    if (ty.startswith('smallvec::SmallVec<') or ty.startswith('alloc::vec::Vec<')) and 'DocumentMetadata' in ty:
+                        nm = fname
+                        if nm is None:
+                            nm = list_names[len(seen_lists)] if len(seen_lists) < len(list_names) else None
+                            seen_lists.append(nm)
+                        return ('vec', [('opaque', 'doc:%s' % nm)])
                     if ty.startswith('smallvec::SmallVec<') or ty.startswith('alloc::vec::Vec<'):
                         return ('vec', [('opaque', 'doc')])
+                    a_ = facts.adts.get(ty_head(ty))
+                    if a_ is not None and a_['kind'] == 'struct' and a_['def'].startswith(EC) and any('DocumentMetadata' in f_['ty'] for f_ in a_['variants'][0]['fields']):
+                        return ('adt', ty_head(ty), 0, [Cell(mk(f_['ty'], f_['name'])) for f_ in a_['variants'][0]['fields']])
                     return actor_abs.build_value(facts, ty, lambda t_: None)
-                upv = {i: mk(ty) for i, ty in ups.items()}
+                upv = {i: mk(ty) for i, ty in sorted(ups.items())}
                 st = ('closure', entry.defp, [Cell(upv.get(i, ('opaque', 'u'))) for i in range(n)])
                 r = it.deref_all(it.run_body(entry, [st, ('opaque', 'cx')]))
                 return it.oracle_log, (r, list(world.trace))
@@ -156,6 +187,24 @@ def check_supervision(ctx, facts, rule):
                 bad.append('Ok is reported without waiting for the removal task: its failure is never seen')
             elif got_ok and not any(e == ('asked-done', True) for e in trace):
                 bad.append('Ok is reported without the modification task having been seen done')
+        if (script, removal_ok) == (['running', 'done'], True):
+            # routing: the removal task is started with the list called `removed`, the modification task with the list called `modified`
+            rbad = []
+            for log, res in results:
+                if res and res[0] == 'panic':
+                    continue
+                _r, trace = res
+                for e in trace:
+                    if e[0] != 'spawn':
+                        continue
+                    want_ = 'removed' if 'removal' in str(e[2]).lower() else 'modified' if 'modified' in str(e[2]).lower() else None
+                    if want_ is not None and e[3] != (want_,):
+                        rbad.append('%s is started with the list(s) %s, expected the list called `%s`: removals are fetched as documents / modifications applied as deletes'
+                                    % (str(e[2]).rsplit('::', 2)[-2] if '::' in str(e[2]) else e[2], list(e[3]) or 'none of the two', want_))
+            ctx.ob(rule, 'routing|each task gets its own list', seen > 0 and not rbad, site_,
+                   'handle_removals is started with `removed`, handle_modified with `modified`' if seen > 0 and not rbad else (rbad[0] if rbad else 'no path'))
+        if only_routing:
+            continue
         good = seen > 0 and not bad
         ctx.ob(rule, 'supervision|%s' % label, good, site_,
                '%s: %s is reported' % (label, 'Ok' if want_ok else 'an error') if good else '%s: %s' % (label, bad[0] if bad else 'no path'))
